@@ -106,6 +106,7 @@ func scenC07(r *Run, job *Job) {
 	}
 	w := r.NewWorld(WorldCfg{TimeoutSec: timeoutSec, ExtFiles: ExtFiles(exts)}, job.Seed)
 	e := w.NewEngine()
+	e.HoldAcrossTimers = len(r.Holds) > 0 && t.Chance(1, 2)
 	maxInv := 16
 	e.Bound = time.Duration(maxInv*(timeoutSec+7)+30) * time.Second
 	e.MaxActions = 3000
@@ -149,7 +150,7 @@ func scenC07(r *Run, job *Job) {
 			}
 		} else {
 			b.Script, b.ThenHealthy = drawExtScript(t, T, p.ExtName)
-			b.OnShutdown = []string{"", "ignore", "exit1", "poll"}[t.Draw(4)]
+			b.OnShutdown = []string{"", "ignore", "exit1", "poll", "exiterror"}[t.Draw(5)]
 		}
 	})
 	for i := 0; i < maxInv; i++ {
